@@ -4,19 +4,20 @@
 # Python module.  Everything is rebuilt incrementally by ./check afterwards.
 set -e
 cd "$(dirname "$0")"
+V="$(pwd)"
 export CARGO_NET_OFFLINE=true
 mkdir -p .cache evidence replays
 [ -f harness/Cargo.lock ] || cp /repo/Cargo.lock harness/Cargo.lock
-(cd harness && CARGO_TARGET_DIR=/verif/.cache/target-hooks cargo build --offline 2>&1 | tail -3)
-(cd /repo && CARGO_TARGET_DIR=/verif/.cache/target-cli cargo build --offline --release -p kmertools 2>&1 | tail -3)
-(cd /repo && CARGO_TARGET_DIR=/verif/.cache/target-py cargo build --offline --release -p pip 2>&1 | tail -3) || true
-python3 - <<'PY'
+(cd harness && CARGO_TARGET_DIR=$V/.cache/target-hooks cargo build --offline 2>&1 | tail -3)
+(cd /repo && CARGO_TARGET_DIR=$V/.cache/target-cli cargo build --offline --release -p kmertools 2>&1 | tail -3)
+(cd /repo && CARGO_TARGET_DIR=$V/.cache/target-py cargo build --offline --release -p pip 2>&1 | tail -3) || true
+python3 - "$V" <<'PY'
 import sys, json, subprocess
-sys.path.insert(0, '/verif/tools')
+sys.path.insert(0, sys.argv[1] + '/tools')
 import gen_from_source
-out = subprocess.run(['/verif/.cache/target-hooks/debug/ktharness', 'dump-tables'], capture_output=True, text=True).stdout
+out = subprocess.run([sys.argv[1] + '/.cache/target-hooks/debug/ktharness', 'dump-tables'], capture_output=True, text=True).stdout
 text, notes = gen_from_source.generate('/repo', json.loads(out))
-open('/verif/lean/KtVerif/Generated.lean', 'w').write(text)
+open(sys.argv[1] + '/lean/KtVerif/Generated.lean', 'w').write(text)
 PY
 (cd lean && lake build 2>&1 | tail -5 && lake build ktmodel 2>&1 | tail -2)
 echo setup done
